@@ -13,3 +13,22 @@ LEVEL_NOTE = 'Trusted: Coq kernel; hand-written model Model/Core.v + Model/Prog.
 FAMILIES = [
     progs.program_family("programs", oracles.oracle_c04, 120, 2500, deep=dict(depth=8, width=3), **dict(fault=0.2, registry_rate=0.3, p_reenter=0.2, p_raise=0.3, p_try=0.25, p_task=0.15, depth=5)),
 ]
+
+from lib import oplists
+from lib.framework import Family
+import json
+
+
+def gen_scripts(rng, tier):
+    n = 80 if tier == "quick" else 1500
+    return [oplists.gen_script(rng, late_add=False, n_ops=rng.randrange(6, 24), fault=0.2) for i in range(n)]
+
+
+def oracle_scripts(case, obs):
+    return oracles.note_failures(obs, ("probe_mismatch", "logging_raised", "foreign_exception"))
+
+
+FAMILIES.append(Family("scripts", gen_scripts, oplists.run_case, oplists.model_expr, oplists.model_obs, oracle_scripts,
+                       lambda case, obs: json.dumps(case["ops"]) if sum(1 for o in case["ops"] if o[0] == "enter") >= 2 else None,
+                       imports=["Model.Core", "Model.Prog"], project=oplists.project, describe=oplists.describe,
+                       shard=40, coq_shard=60))
